@@ -33,6 +33,7 @@ from ast_decompiler import decompile
 from typing_extensions import NotRequired, Protocol, TypedDict
 
 from . import analysis_lib, error_code
+from . import _verif_trace
 from .safe import safe_getattr, safe_isinstance
 
 Error = dict[str, Any]
@@ -601,18 +602,46 @@ class BaseNodeVisitor(ast.NodeVisitor):
                     "extra_metadata": extra_metadata,
                 }
             )
+            if _verif_trace.is_enabled():
+                _verif_trace.emit(
+                    "ShowError",
+                    code=getattr(error_code, "name", None),
+                    lineno=getattr(node, "lineno", None),
+                    decision="caught",
+                )
             return None
 
         # check if error was disabled
         if error_code is not None and not self.is_enabled(error_code):
+            if _verif_trace.is_enabled():
+                _verif_trace.emit(
+                    "ShowError",
+                    code=getattr(error_code, "name", None),
+                    lineno=getattr(node, "lineno", None),
+                    decision="disabled",
+                )
             return None
 
         if self.has_file_level_ignore(error_code, ignore_comment):
+            if _verif_trace.is_enabled():
+                _verif_trace.emit(
+                    "ShowError",
+                    code=getattr(error_code, "name", None),
+                    lineno=getattr(node, "lineno", None),
+                    decision="file_ignore",
+                )
             return None
 
         key = (node, error_code or e)
         if key in self.seen_errors:
             self.logger.info("Ignoring duplicate error %s", key)
+            if _verif_trace.is_enabled():
+                _verif_trace.emit(
+                    "ShowError",
+                    code=getattr(error_code, "name", None),
+                    lineno=getattr(node, "lineno", None),
+                    decision="duplicate",
+                )
             return None
         self.seen_errors.add(key)
 
@@ -658,6 +687,13 @@ class BaseNodeVisitor(ast.NodeVisitor):
                 and f"{ignore_comment}[{error_code.name}]" in this_line
             ):
                 self.used_ignores.add(lineno - 1)
+                if _verif_trace.is_enabled():
+                    _verif_trace.emit(
+                        "ShowError",
+                        code=getattr(error_code, "name", None),
+                        lineno=getattr(node, "lineno", None),
+                        decision="this_line",
+                    )
                 return
             prev_line = lines[lineno - 2].strip()
             if (
@@ -666,8 +702,22 @@ class BaseNodeVisitor(ast.NodeVisitor):
                 and prev_line == f"{ignore_comment}[{error_code.name}]"
             ):
                 self.used_ignores.add(lineno - 2)
+                if _verif_trace.is_enabled():
+                    _verif_trace.emit(
+                        "ShowError",
+                        code=getattr(error_code, "name", None),
+                        lineno=getattr(node, "lineno", None),
+                        decision="prev_line",
+                    )
                 return
 
+        if _verif_trace.is_enabled():
+            _verif_trace.emit(
+                "ShowError",
+                code=getattr(error_code, "name", None),
+                lineno=getattr(node, "lineno", None),
+                decision="emitted",
+            )
         self.had_failure = True
 
         if lineno is not None:
